@@ -49,12 +49,14 @@ def run_lex(ctx, cfgs, envs):
         for env in envs:
             tag = cfg[0] + ("-" + "_".join(env).replace("=", "") if env else "")
             sfile = os.path.join(ctx.work, "lex-%s.json" % tag)
+            dfile = os.path.join(ctx.work, "lex-%s.dg" % tag)
             args = ["lex", "-dump", r["dump"], "-out", sfile, "-seed", ctx.seed, "-m", cfg[6], "-prefix", cfg[5],
-                    "-workers", max(2, vf.NPROC // 2)]
+                    "-workers", max(2, vf.NPROC // 2), "-digests", dfile]
             if env:
                 args += ["-env", ",".join(env)]
-            vf.vh(ctx, args, timeout=3000)
+            vf.vh(ctx, args, timeout=3000, env=(dict(x.split("=", 1) for x in env) if env else None))
             s = json.load(open(sfile))
+            s["digests"] = dfile
             s["cfg"] = cfg[0]
             s["constants"] = {"Alphabet": cfg[1], "MaxLen": cfg[2], "StrCap": cfg[3], "Prefix": cfg[4], "MaxDepth": 3}
             s["tlc"] = {"distinct": r["distinct"], "generated": r["generated"], "depth": r["depth"]}
